@@ -267,3 +267,31 @@ func HarnessBriefStall() {
 	verif.Quiesce()
 	verif.Reach("brief-stall-done")
 }
+
+type PH struct{}
+
+func (PH) Note(a int64)       {}
+func (PH) Echo(a int64) int64 { return a }
+
+// HarnessPingsWhileBusy: a server with a ping interval keeps pinging whatever
+// data frames it receives in the meantime — for a peer that only sends (a stream
+// of notifications, calls whose handlers are still running) the server's pings
+// are the only sign of life it gets. Every tick of the ping timer puts one ping
+// on the wire.
+func HarnessPingsWhileBusy() {
+	srv := jsonrpc.NewServer(jsonrpc.WithServerPingInterval(100 * time.Millisecond))
+	srv.Register("P", PH{})
+	pc := verif.DialRaw(srv, nil)
+	for i := 0; i < 2; i++ {
+		pc.Send([]byte(`{"jsonrpc":"2.0","method":"P.Note","params":[1]}`))
+		verif.Quiesce() // ping timer ticks may happen here (budget T)
+	}
+	fired := verif.TimersFired() // ticks so far; their pings are on the wire by now (quiescence)
+	pc.Send([]byte(`{"jsonrpc":"2.0","id":9,"method":"P.Echo","params":[4]}`))
+	_, ok := pc.Recv() // reading also processes the pings that arrived before the answer
+	verif.Assert(ok, "connection-stays-up")
+	verif.Assert(pc.Pings() >= fired, "every-ping-tick-puts-a-ping-on-the-wire")
+	pc.CloseGraceful()
+	verif.Quiesce()
+	verif.Reach("pings-while-busy-done")
+}
